@@ -789,10 +789,16 @@ impl<'a> crate::ranger::Store<SignedEntry> for StoreInstance<'a> {
             );
             tables.records_by_key.insert(key, ())?;
 
-            // insert into latest table
+            // insert into latest table, unless the author's latest entry is newer than this one
             let key = (&e.id().namespace().to_bytes(), &e.id().author().to_bytes());
-            let value = (e.timestamp(), e.id().key());
-            tables.latest_per_author.insert(key, value)?;
+            let is_latest = match tables.latest_per_author.get(key)? {
+                Some(latest) => e.timestamp() >= latest.value().0,
+                None => true,
+            };
+            if is_latest {
+                let value = (e.timestamp(), e.id().key());
+                tables.latest_per_author.insert(key, value)?;
+            }
             Ok(())
         })
     }
